@@ -300,13 +300,13 @@ def r3(repo, chk):
         chk.ob("R3", f"{fn.qual.split('.')[-1]} awaits its future through asyncio.shield", ok, "cancelling the awaiting task cancels the shared future; completing it later raises InvalidStateError out of the datagram / timer callback and the remaining events of that batch (termination included) are lost", fn.loc(fn.node))
     for branch, how, what in ((term, "set_exception", "ConnectionTerminated"), (natom("isinstance(event, events.HandshakeCompleted)"), "set_result", "HandshakeCompleted")):
         # the local that holds the future taken out of the slot may have any name
-        comp = [c for c in pe.calls(suffix=how) if in_branch(c, branch) and isinstance(c.func.value, ast.Name) and ("self._connected_waiter is not None", True) in pe.guard_atoms(c)]
+        comp = [c for c in pe.calls(suffix=how) if in_branch(c, branch) and isinstance(c.func.value, ast.Name) and (("self._connected_waiter is not None", True) in pe.guard_atoms(c) or (f"{c.func.value.id} is not None", True) in pe.guard_atoms(c))]
         chk.ob("R3", f"_process_events completes the connect waiter on {what}", len(comp) == 1, "", pe.loc(pe.node))
         for c in comp:
             clear = [st for st, t, v in pe.assigns(chain="self._connected_waiter") if isinstance(v, ast.Constant) and v.value is None and in_branch(st, branch)]
-            grab = [st for st, t, v in pe.assigns(chain=c.func.value.id) if in_branch(st, branch) and pe.before(st, c) and not any(isinstance(p, (ast.For, ast.While)) and in_branch(p, branch) for p in _ancestors(st))]
-            grab = grab if all(norm(st.value) == "self._connected_waiter" for st in grab) else []
-            ok = len(clear) == 1 and len(grab) == 1 and pe.before(grab[0], clear[0]) and pe.before(clear[0], c)
+            grab = [st for st, t, v in pe.assigns(chain=c.func.value.id) if in_branch(st, branch) and (pe.before(st, c) or (isinstance(st, ast.If) and inside(c, st))) and not any(isinstance(p, (ast.For, ast.While)) and in_branch(p, branch) for p in _ancestors(st))]
+            grab = grab if all(norm(v2) == "self._connected_waiter" for st2, t2, v2 in pe.assigns(chain=c.func.value.id) if st2 in grab) else []
+            ok = len(clear) == 1 and len(grab) == 1 and (pe.before(grab[0], clear[0]) or (isinstance(grab[0], ast.If) and any(clear[0] is s_ or inside(clear[0], s_) for s_ in grab[0].body))) and pe.before(clear[0], c)
             chk.ob("R3", f"{what}: the connect slot is emptied before the future is completed (no second completion)", ok, "", pe.loc(c))
     flag = [st for st, t, v in pe.assigns(chain="self._connected") if isinstance(v, ast.Constant) and v.value is True]
     ok = len(flag) == 1 and natom("isinstance(event, events.HandshakeCompleted)") in pe.lexical_guards(flag[0], expand=False) and [a for a in pe.lexical_guards(flag[0], expand=False) if not a[0].startswith("isinstance(event, ") and a[0] != "event is not None"] == []
